@@ -265,6 +265,12 @@ func (c *EvalCtx) ident(name string) Value {
 		}
 	}
 	switch name {
+	case "rangecount":
+		// number of entries produced so far by the innermost range-over-map loop
+		if v, ok := c.st.ghost["rangecount"]; ok {
+			return v
+		}
+		return Num(0)
 	case "nil":
 		return nilV{}
 	case "int", "byte", "uint8", "uint16", "uint32", "uint64", "int64", "string", "bool", "error":
@@ -748,6 +754,13 @@ func (c *EvalCtx) call(e *ECall) Value {
 			return Ite(c.e.ifaceNil(i), Num(0), c.e.ifaceTag(i))
 		}
 		return c.fail("typeOf of non-interface %T", v)
+	case "deref":
+		if iv, ok := c.eval(arg(0)).(IfaceV); ok && iv.Sym == nil {
+			if p, isPtr := iv.V.(PtrV); isPtr && p.Obj != nil {
+				return c.e.loadPtr(c.st, p)
+			}
+		}
+		return c.fail("deref: not a concrete pointer in an interface")
 	case "elemTypeOf":
 		if i, ok := c.eval(arg(0)).(IfaceV); ok && i.Sym == nil && i.Dyn != nil {
 			if p, isPtr := i.Dyn.(*types.Pointer); isPtr {
@@ -807,6 +820,9 @@ func (c *EvalCtx) call(e *ECall) Value {
 		if !ok1 || !ok2 {
 			return c.fail("sameArray of non-slices")
 		}
+		if a.Obj != b.Obj && ((a.Obj != nil && a.Obj.Sym) || (b.Obj != nil && b.Obj.Sym)) {
+			return c.e.freshVar("samearray", SBool)
+		}
 		return Bool(a.Obj == b.Obj)
 	case "inside":
 		// inside(s, data): the bytes of s are a sub-range of data's bytes (same array snapshot)
@@ -833,6 +849,10 @@ func (c *EvalCtx) call(e *ECall) Value {
 			return c.fail("within of non-slices")
 		}
 		if a.Obj != b.Obj {
+			if (a.Obj != nil && a.Obj.Sym) || (b.Obj != nil && b.Obj.Sym) {
+				// identity of a placeholder is unknown: neither true nor false
+				return Or(Eq(a.Len, Num(0)), c.e.freshVar("within", SBool))
+			}
 			return Eq(a.Len, Num(0))
 		}
 		return And(Le(b.Off, a.Off), Le(Add(a.Off, a.Len), Add(b.Off, b.Len)))
@@ -1152,6 +1172,15 @@ func (c *EvalCtx) loc(x Expr) (Loc, bool) {
 						fp := PtrV{Obj: inner.Obj, Path: append(append([]interface{}{}, inner.Path...), j), Nil: TFalse, Elem: ist.Field(j).Type()}
 						return Loc{Ptr: &fp}, true
 					}
+				}
+			}
+		}
+	case *ECall:
+		if e.Fun == "deref" && len(e.Args) == 1 {
+			// deref(x): the variable a pointer stored in interface x points to
+			if iv, ok := c.eval(e.Args[0]).(IfaceV); ok && iv.Sym == nil {
+				if p, isPtr := iv.V.(PtrV); isPtr && p.Obj != nil {
+					return Loc{Ptr: &p}, true
 				}
 			}
 		}
